@@ -148,11 +148,15 @@ impl Project for FileBackedProject {
     }
 
     fn semantic(&mut self) -> Result<(), Vec<Diagnostic>> {
+        #[cfg(feature = "verif")]
+        let verif_keys: Vec<FileId> = self.sources.keys().cloned().collect();
         let library_results: Vec<_> = self
             .sources
             .iter_mut()
             .map(|source| source.1.library())
             .collect();
+        #[cfg(feature = "verif")]
+        let library_results = crate::verif::reorder(library_results, &verif_keys);
 
         // We would like to do "best effort" semantic analysis. So, we will do
         // semantic analysis on the items we can analyze, and the provide full
